@@ -15,7 +15,9 @@ RULE = ("for every configuration of the lattice (16 flag sets x velocity_bins x 
         "detokenise on every member; closure: every token emitted by tokenise on a pool of regular and irregular inputs is a "
         "member; distinct = distinct (configuration, member); non-trivial = configuration differs from the two the suite builds")
 SCALE = ('PPQN 96/480/960 configurations with step sizes and note values of that resolution (token fields of four digits) and a six-bar piece written at that resolution')
-ASSUMPTIONS = ["a tokenise call that raises TokenisationException is a rejection, not a violation"]
+ASSUMPTIONS = ["a tokenise call that raises TokenisationException is a rejection, not a violation",
+               "entries of step_sizes / note_values are Python ints as the signature says (list[int]); lists may be unsorted and "
+               "may name an entry twice"]
 REQUIRED_FLAGS = ["construction_history", "unfused_velocity", "unfused_track", "unfused_value", "no_running_values", "bins_gt_1", "multi_track",
                   "closure_tokens_checked", "rejection_observed", "irregular_input_accepted", "member_detokenised",
                   "piece_at_high_resolution_accepted", "stream_handed_over_as_generator"]
